@@ -291,7 +291,8 @@ class LayoutDomain:
         if isinstance(a, Sz) and isinstance(b, Const) and isinstance(op, ast.Mult) and b.value == 1: return a
         if isinstance(a, (Sz,)) or isinstance(b, (Sz,)):
             return Sz(("?arith",))
-        if isinstance(a, (IndexOf, CumIdx)) and isinstance(b, Const) and isinstance(op, (ast.Add, ast.Sub)): return a
+        if isinstance(a, (IndexOf, CumIdx)) and isinstance(op, (ast.Add, ast.Sub)) and not isinstance(b, (Arr, RotL, ObjList, ListOf)): return a
+        if isinstance(b, IndexOf) and isinstance(op, ast.Add) and not isinstance(a, (Arr, RotL, ObjList, ListOf)): return b
         if isinstance(a, Seq) and isinstance(b, ListOf) and isinstance(op, ast.Add): return b     # [0] + pix_nums
         if isinstance(a, ObjList) and isinstance(b, ObjList) and isinstance(op, ast.Add): return ObjList("OBJ")
         if isinstance(a, Arr) and isinstance(b, Arr):
@@ -341,6 +342,7 @@ class LayoutDomain:
     PATH = "M"
 
     def attr(self, recv, name, node):
+        if name == "newaxis" and isinstance(recv, (ModRef, ExtName)): return Const(None)
         if isinstance(recv, ModRef): return ExtName(f"{recv.name}.{name}")
         if isinstance(recv, ExtName): return ExtName(f"{recv.q}.{name}")
         if isinstance(recv, Obj):
@@ -361,7 +363,7 @@ class LayoutDomain:
             if isinstance(lo, CumIdx) or isinstance(hi, CumIdx): return ("Ps",) if axis == ("P",) else ("?sub",)
             return axis
         if isinstance(it, SliceV): return (it.part,) if axis == ("P",) else ("?sub",)
-        if isinstance(it, (IndexOf,)) or (isinstance(it, Const) and isinstance(it.value, int)): return None
+        if isinstance(it, (IndexOf, Sz)) or (isinstance(it, Const) and isinstance(it.value, int)): return None
         if isinstance(it, Const) and it.value is None: return ("#1",)
         if isinstance(it, Seq): return ("?fancy",)
         if isinstance(it, Arr): return ("?mask",)
@@ -433,7 +435,8 @@ class LayoutDomain:
             if isinstance(tgt, Arr):
                 self.log("store", node)
                 ta, va = [a for a in tgt.axes if a not in ((), ("#1",))], [a for a in val.axes if a not in ((), ("#1",))]
-                if aug is None and (len(ta) != len(va) or not all(same_rows(x, y) for x, y in zip(ta, va))):
+                if aug is None and not any(a in (("?idx",), ("?fancy",), ("?mask",)) for a in ta) and \
+                        (len(ta) != len(va) or not all(same_rows(x, y) for x, y in zip(ta, va))):
                     self.report("store", node, f"a block enumerated as {val} is written into a slot enumerated as {tgt}")
         return recv
 
@@ -526,6 +529,10 @@ class LayoutDomain:
             if name == "values": return Seq(list(recv.value.values()), "py")
             if name in ("pop", "get"): return U("dict." + name)
         if isinstance(recv, (ListOf,)) and name in ("append", "extend"): return Const(None)
+        if isinstance(recv, Seq) and recv.kind == "py" and name in ("append", "extend") and args:
+            if not (name == "extend" and not isinstance(args[0], Seq)):
+                recv.items.extend(args[0].items if name == "extend" else [args[0]])
+            return Const(None)
         return U("method " + name)
 
     def _reduce(self, a, args, kwargs):
